@@ -8,7 +8,8 @@ from vlib.common import MachineryError
 LEVELS = ("mod", "type", "impl", "method")
 STATES = ("-", "P", "L")
 STATE_NAME = {"-": "-", "P": "pattern", "L": "literal"}
-OWNERS = ("opaque", "struct", "enum")
+OWNERS = ("opaque", "openum", "struct", "enum")  # openum = #[diplomat::opaque] enum (has a destructor like an opaque struct)
+OPAQUE_OWNERS = ("opaque", "openum")
 METHODS = ("sm", "im")  # static method, self method
 ALL_BACKENDS = ("c", "cpp", "js", "dart", "kotlin", "nanobind", "demo_gen")
 
@@ -77,7 +78,7 @@ def module_functions(m):
         chain = [abi_value("mod", st["mod"], k), abi_value("impl", st["impl"], k), abi_value("method", st["method"], k, meth)]
         out.append({"role": "method", "item": meth, "default": "%s_%s" % (ty, meth), "chain": chain,
                     "names": chain_names(chain, "%s_%s" % (ty, meth))})
-    if m["owner"] == "opaque":
+    if m["owner"] in OPAQUE_OWNERS:
         chain = [abi_value("mod", st["mod"], k), abi_value("type", st["type"], k)]
         out.append({"role": "dtor", "item": "destroy", "default": "%s_destroy" % ty, "chain": chain,
                     "names": chain_names(chain, "%s_destroy" % ty)})
@@ -136,7 +137,7 @@ def cond_holds(cond, backend):
 def enabled_items(m, backend):
     """set of items ('sm','im','destroy') the backend must reference."""
     meths = set(m.get("methods", METHODS))
-    items = meths | ({"destroy"} if m["owner"] == "opaque" else set())
+    items = meths | ({"destroy"} if m["owner"] in OPAQUE_OWNERS else set())
     a = m["attr"]
     if a[0] != "disable" or not cond_holds(a[2], backend):
         return items
@@ -169,12 +170,15 @@ def module_src(m):
                 L.append(ind + ln)
     put("", _abi_line("mod", st["mod"], k), attr_line(a, "mod", k))
     L.append("pub mod m%d {" % k)
-    if owner == "opaque":
+    if owner in OPAQUE_OWNERS:
         L.append("    #[diplomat::opaque]")
     put("    ", _abi_line("type", st["type"], k), attr_line(a, "type", k))
     ty = "Zq%dT" % k
     if owner == "opaque":
         L.append("    pub struct %s;" % ty)
+        slf = "&self"
+    elif owner == "openum":
+        L.append("    pub enum %s { A, B }" % ty)
         slf = "&self"
     elif owner == "struct":
         L.append("    pub struct %s { pub a: u8 }" % ty)
